@@ -1070,6 +1070,24 @@ def replay_session(prop, obj, path, vh):
 REPLAYERS["uci-session"] = replay_session
 
 
+def tlaps(run, module):
+    """Check a TLAPS proof module (design-level lemma over all naturals; a failure is a note, never a verdict)."""
+    pd = os.path.join(core.BUILD, "tlaps-" + module)
+    shutil.rmtree(pd, ignore_errors=True)
+    os.makedirs(pd, exist_ok=True)
+    shutil.copy(os.path.join(core.SPEC, module + ".tla"), pd)
+    try:
+        pp = core.sh(["tlapm", "--threads", "8", module + ".tla"], cwd=pd, check=False, timeout=600)
+        text = pp.stdout + pp.stderr
+    except Exception as ex:
+        text = str(ex)
+    mm = re.search(r"All (\d+) obligations? proved", text)
+    if mm:
+        run.cov.setdefault("tlaps_obligations_proved", {})[module] = int(mm.group(1))
+    else:
+        run.notes.append("tlapm did not prove %s.tla (design-level lemma; not a verdict): %s" % (module, text[-300:].replace("\n", " ")))
+
+
 @check("C13")
 def c13(tier, seed):
     import random
@@ -1088,16 +1106,7 @@ def c13(tier, seed):
     res["output"] = ""
     run.add_mc(res, {"grid_points": len(grid)})
     # the same lemma for ALL natural clocks and increments: TLAPS proof of spec/TimeBudgetProof.tla
-    pd = os.path.join(core.BUILD, "tlaps")
-    shutil.rmtree(pd, ignore_errors=True)
-    os.makedirs(pd, exist_ok=True)
-    shutil.copy(os.path.join(core.SPEC, "TimeBudgetProof.tla"), pd)
-    pp = core.sh(["tlapm", "--threads", "8", "TimeBudgetProof.tla"], cwd=pd, check=False, timeout=600)
-    mm = re.search(r"All (\d+) obligations? proved", pp.stdout + pp.stderr)
-    if mm:
-        run.cov["tlaps_obligations_proved"] = int(mm.group(1))
-    else:
-        run.notes.append("tlapm did not prove TimeBudgetProof.tla (design-level lemma; not a verdict): " + (pp.stdout + pp.stderr)[-300:].replace("\n", " "))
+    tlaps(run, "TimeBudgetProof")
     if quick:
         rnd.shuffle(grid)
         pass
@@ -1366,6 +1375,7 @@ def c15(tier, seed):
         raise core.ToolError("Capacity.tla (repaired arithmetic) violates %s" % res["violated"])
     res["output"] = ""
     run.add_mc(res, {"Cap": 512, "Limit": 400, "Margin": 64, "QMax": 47})
+    tlaps(run, "CapacityProof")
     # (B1) the histories nearest to the capacity on the checked build of the real binary
     sessions = []
     for n in ([397, 398, 399] if quick else [300, 390, 396, 397, 398, 399, 400]):
